@@ -1183,6 +1183,173 @@ Proof.
     intros j. rewrite V4. apply upd_upd_same.
 Qed.
 
+(* ---- comparison, jumps, ranges and iterators (loops, if) ---- *)
+Lemma step2_less : forall m fn ups pc base frs CL0 c1 c2 HL G O a b,
+  MS2 m fn ups pc base frs (CL0 ++ [c1; c2])%list HL G O -> fetch (code_of funs fn) pc = Some ILess ->
+  cv m c1 = MInt a -> cv m c2 = MInt b -> ~ In c1 HL -> ~ In c2 HL ->
+  exists m', mstep cf funs m = MRun m' /\
+    MS2 m' fn ups (pc + 1) base frs (CL0 ++ [cn m])%list HL G O /\
+    cv m' = upd (cv m) (cn m) (MBool (Z.ltb a b)) /\ cn m' = S (cn m).
+Proof.
+  intros m fn ups pc base frs CL0 c1 c2 HL G O a b H Hf Ha Hb Hc1 Hc2. start2 H S0 F.
+  pose proof (set_pc_MS2 _ _ _ _ _ _ _ _ _ _ (pc + 1) H) as H1. start2 H1 S1 F1.
+  assert (Hlen : 1 < List.length (CL0 ++ [c1; c2])) by (rewrite app_length; cbn; lia).
+  destruct (nth_peek2 CL0 c1 c2) as [P1 P0].
+  exists (mpush (mpopn 2 (set_pc m (pc + 1))) (MBool (Z.ltb a b))). split.
+  - open_step2 S0 F Hf. cbn [isize].
+    rewrite (mpeek2 _ _ _ 1 S1 Hlen), (mpeek2 _ _ _ 0 S1 ltac:(lia)), P1, P0, cv_set_pc, Ha, Hb. reflexivity.
+  - cbn [mpopn]. rewrite app2_split in H1, S1.
+    destruct (MS2_eff _ _ _ _ _ _ _ _ _ _ _ _ _ _ _ H1 (mpop2 _ _ _ _ S1 Hc2)) as (H2 & V2 & N2). start2 H2 S2 F2.
+    destruct (MS2_eff _ _ _ _ _ _ _ _ _ _ _ _ _ _ _ H2 (mpop2 _ _ _ _ S2 Hc1)) as (H3 & V3 & N3). start2 H3 S3 F3.
+    destruct (MS2_eff _ _ _ _ _ _ _ _ _ _ _ _ _ _ _ H3 (mpush2 _ _ _ (MBool (Z.ltb a b)) S3)) as (H4 & V4 & N4).
+    rewrite N3, N2, cn_set_pc in H4, V4, N4. rewrite V3, V2, cv_set_pc in V4.
+    split; [exact H4|]. split; [exact V4|exact N4].
+Qed.
+
+Lemma step2_buildrange : forall m fn ups pc base frs CL0 c1 c2 HL G O a b,
+  MS2 m fn ups pc base frs (CL0 ++ [c1; c2])%list HL G O -> fetch (code_of funs fn) pc = Some IBuildRange ->
+  cv m c1 = MInt a -> cv m c2 = MInt b -> ~ In c1 HL -> ~ In c2 HL ->
+  exists m', mstep cf funs m = MRun m' /\
+    MS2 m' fn ups (pc + 1) base frs (CL0 ++ [cn m])%list HL G O /\
+    cv m' = upd (cv m) (cn m) (MRange a b) /\ cn m' = S (cn m).
+Proof.
+  intros m fn ups pc base frs CL0 c1 c2 HL G O a b H Hf Ha Hb Hc1 Hc2. start2 H S0 F.
+  pose proof (set_pc_MS2 _ _ _ _ _ _ _ _ _ _ (pc + 1) H) as H1. start2 H1 S1 F1.
+  assert (Hlen : 1 < List.length (CL0 ++ [c1; c2])) by (rewrite app_length; cbn; lia).
+  destruct (nth_peek2 CL0 c1 c2) as [P1 P0].
+  exists (mpush (mpopn 2 (set_pc m (pc + 1))) (MRange a b)). split.
+  - open_step2 S0 F Hf. cbn [isize].
+    rewrite (mpeek2 _ _ _ 1 S1 Hlen), (mpeek2 _ _ _ 0 S1 ltac:(lia)), P1, P0, cv_set_pc, Ha, Hb. reflexivity.
+  - cbn [mpopn]. rewrite app2_split in H1, S1.
+    destruct (MS2_eff _ _ _ _ _ _ _ _ _ _ _ _ _ _ _ H1 (mpop2 _ _ _ _ S1 Hc2)) as (H2 & V2 & N2). start2 H2 S2 F2.
+    destruct (MS2_eff _ _ _ _ _ _ _ _ _ _ _ _ _ _ _ H2 (mpop2 _ _ _ _ S2 Hc1)) as (H3 & V3 & N3). start2 H3 S3 F3.
+    destruct (MS2_eff _ _ _ _ _ _ _ _ _ _ _ _ _ _ _ H3 (mpush2 _ _ _ (MRange a b) S3)) as (H4 & V4 & N4).
+    rewrite N3, N2, cn_set_pc in H4, V4, N4. rewrite V3, V2, cv_set_pc in V4.
+    split; [exact H4|]. split; [exact V4|exact N4].
+Qed.
+
+Lemma nth_last_snoc2 : forall (CL0 : list nat) c, nth (List.length (CL0 ++ [c]) - 1 - 0) (CL0 ++ [c])%list 0 = c.
+Proof. intros. rewrite app_length. cbn [List.length]. replace (List.length CL0 + 1 - 1 - 0) with (List.length CL0) by lia. apply nth_middle. Qed.
+
+Lemma step2_jump : forall m fn ups pc base frs CL HL G O o,
+  MS2 m fn ups pc base frs CL HL G O -> fetch (code_of funs fn) pc = Some (IJump o) ->
+  exists m', mstep cf funs m = MRun m' /\ MS2 m' fn ups (pc + 3 + o) base frs CL HL G O /\ cv m' = cv m /\ cn m' = cn m.
+Proof.
+  intros m fn ups pc base frs CL HL G O o H Hf. start2 H S0 F.
+  pose proof (set_pc_MS2 _ _ _ _ _ _ _ _ _ _ (pc + 3) H) as H1.
+  pose proof (set_pc_MS2 _ _ _ _ _ _ _ _ _ _ (pc + 3 + o) H1) as H2.
+  exists (set_pc (set_pc m (pc + 3)) (pc + 3 + o)). split; [open_step2 S0 F Hf; reflexivity|].
+  split; [exact H2|]. split; [now rewrite !cv_set_pc|now rewrite !cn_set_pc].
+Qed.
+
+Lemma step2_loop : forall m fn ups pc base frs CL HL G O o,
+  MS2 m fn ups pc base frs CL HL G O -> fetch (code_of funs fn) pc = Some (ILoop o) ->
+  exists m', mstep cf funs m = MRun m' /\ MS2 m' fn ups (pc + 3 - o) base frs CL HL G O /\ cv m' = cv m /\ cn m' = cn m.
+Proof.
+  intros m fn ups pc base frs CL HL G O o H Hf. start2 H S0 F.
+  pose proof (set_pc_MS2 _ _ _ _ _ _ _ _ _ _ (pc + 3) H) as H1.
+  pose proof (set_pc_MS2 _ _ _ _ _ _ _ _ _ _ (pc + 3 - o) H1) as H2.
+  exists (set_pc (set_pc m (pc + 3)) (pc + 3 - o)). split; [open_step2 S0 F Hf; reflexivity|].
+  split; [exact H2|]. split; [now rewrite !cv_set_pc|now rewrite !cn_set_pc].
+Qed.
+
+(* JumpIfFalse looks at the top of the stack and leaves it there *)
+Lemma step2_jumpiffalse : forall m fn ups pc base frs CL0 c HL G O o b,
+  MS2 m fn ups pc base frs (CL0 ++ [c])%list HL G O -> fetch (code_of funs fn) pc = Some (IJumpIfFalse o) ->
+  cv m c = MBool b ->
+  exists m', mstep cf funs m = MRun m' /\
+    MS2 m' fn ups (if b then pc + 3 else pc + 3 + o) base frs (CL0 ++ [c])%list HL G O /\ cv m' = cv m /\ cn m' = cn m.
+Proof.
+  intros m fn ups pc base frs CL0 c HL G O o b H Hf Hb. start2 H S0 F.
+  pose proof (set_pc_MS2 _ _ _ _ _ _ _ _ _ _ (pc + 3) H) as H1. start2 H1 S1 F1.
+  assert (Hlen : 0 < List.length (CL0 ++ [c])) by (rewrite app_length; cbn; lia).
+  assert (Hp : mpeek (set_pc m (pc + 3)) 0 = MBool b) by (rewrite (mpeek2 _ _ _ 0 S1 Hlen), nth_last_snoc2, cv_set_pc; exact Hb).
+  destruct b.
+  - exists (set_pc m (pc + 3)). split; [open_step2 S0 F Hf; cbn [isize]; rewrite Hp; reflexivity|].
+    split; [exact H1|]. split; [apply cv_set_pc|apply cn_set_pc].
+  - pose proof (set_pc_MS2 _ _ _ _ _ _ _ _ _ _ (pc + 3 + o) H1) as H2.
+    exists (set_pc (set_pc m (pc + 3)) (pc + 3 + o)). split; [open_step2 S0 F Hf; cbn [isize]; rewrite Hp; reflexivity|].
+    split; [exact H2|]. split; [now rewrite !cv_set_pc|now rewrite !cn_set_pc].
+Qed.
+
+(* JumpIfStopIter likewise *)
+Lemma step2_jumpifstop_no : forall m fn ups pc base frs CL0 c HL G O o z,
+  MS2 m fn ups pc base frs (CL0 ++ [c])%list HL G O -> fetch (code_of funs fn) pc = Some (IJumpIfStopIter o) ->
+  cv m c = MInt z ->
+  exists m', mstep cf funs m = MRun m' /\ MS2 m' fn ups (pc + 3) base frs (CL0 ++ [c])%list HL G O /\ cv m' = cv m /\ cn m' = cn m.
+Proof.
+  intros m fn ups pc base frs CL0 c HL G O o z H Hf Hb. start2 H S0 F.
+  pose proof (set_pc_MS2 _ _ _ _ _ _ _ _ _ _ (pc + 3) H) as H1. start2 H1 S1 F1.
+  assert (Hlen : 0 < List.length (CL0 ++ [c])) by (rewrite app_length; cbn; lia).
+  assert (Hp : mpeek (set_pc m (pc + 3)) 0 = MInt z) by (rewrite (mpeek2 _ _ _ 0 S1 Hlen), nth_last_snoc2, cv_set_pc; exact Hb).
+  exists (set_pc m (pc + 3)). split; [open_step2 S0 F Hf; cbn [isize]; rewrite Hp; reflexivity|].
+  split; [exact H1|]. split; [apply cv_set_pc|apply cn_set_pc].
+Qed.
+
+Lemma step2_jumpifstop_yes : forall m fn ups pc base frs CL0 c HL G O o,
+  MS2 m fn ups pc base frs (CL0 ++ [c])%list HL G O -> fetch (code_of funs fn) pc = Some (IJumpIfStopIter o) ->
+  cv m c = MStop ->
+  exists m', mstep cf funs m = MRun m' /\ MS2 m' fn ups (pc + 3 + o) base frs (CL0 ++ [c])%list HL G O /\ cv m' = cv m /\ cn m' = cn m.
+Proof.
+  intros m fn ups pc base frs CL0 c HL G O o H Hf Hb. start2 H S0 F.
+  pose proof (set_pc_MS2 _ _ _ _ _ _ _ _ _ _ (pc + 3) H) as H1. start2 H1 S1 F1.
+  assert (Hlen : 0 < List.length (CL0 ++ [c])) by (rewrite app_length; cbn; lia).
+  assert (Hp : mpeek (set_pc m (pc + 3)) 0 = MStop) by (rewrite (mpeek2 _ _ _ 0 S1 Hlen), nth_last_snoc2, cv_set_pc; exact Hb).
+  pose proof (set_pc_MS2 _ _ _ _ _ _ _ _ _ _ (pc + 3 + o) H1) as H2.
+  exists (set_pc (set_pc m (pc + 3)) (pc + 3 + o)). split; [open_step2 S0 F Hf; cbn [isize]; rewrite Hp; reflexivity|].
+  split; [exact H2|]. split; [now rewrite !cv_set_pc|now rewrite !cn_set_pc].
+Qed.
+
+(* range.iter(): the range on top of the stack becomes an iterator, in place *)
+Lemma step2_iter : forall m fn ups pc base frs CL0 c HL G O lo hi k,
+  MS2 m fn ups pc base frs (CL0 ++ [c])%list HL G O -> fetch (code_of funs fn) pc = Some (IInvoke MIter k) ->
+  cv m c = MRange lo hi ->
+  exists m', mstep cf funs m = MRun m' /\
+    MS2 m' fn ups (pc + 4) base frs (CL0 ++ [c])%list HL G O /\ cv m' = upd (cv m) c (MIterV lo hi) /\ cn m' = cn m.
+Proof.
+  intros m fn ups pc base frs CL0 c HL G O lo hi k H Hf Hb. start2 H S0 F.
+  pose proof (set_pc_MS2 _ _ _ _ _ _ _ _ _ _ (pc + 4) H) as H1. start2 H1 S1 F1.
+  assert (Hlen : 0 < List.length (CL0 ++ [c])) by (rewrite app_length; cbn; lia).
+  assert (Hp : mpeek (set_pc m (pc + 4)) 0 = MRange lo hi) by (rewrite (mpeek2 _ _ _ 0 S1 Hlen), nth_last_snoc2, cv_set_pc; exact Hb).
+  exists (mpoke (set_pc m (pc + 4)) 0 (MIterV lo hi)). split; [open_step2 S0 F Hf; cbn [isize]; rewrite Hp; reflexivity|].
+  destruct (MS2_eff _ _ _ _ _ _ _ _ _ _ _ _ _ _ _ H1 (mpoke2 _ _ _ _ (MIterV lo hi) S1)) as (H2 & V2 & N2).
+  rewrite cv_set_pc in V2. rewrite cn_set_pc in N2. auto.
+Qed.
+
+(* iterator.next() with the iterator on top of the stack *)
+Lemma step2_iternext_more : forall m fn ups pc base frs CL0 c HL G O cur hi,
+  MS2 m fn ups pc base frs (CL0 ++ [c])%list HL G O -> fetch (code_of funs fn) pc = Some IIterNext ->
+  cv m c = MIterV cur hi -> Z.ltb cur hi = true ->
+  exists m', mstep cf funs m = MRun m' /\
+    MS2 m' fn ups (pc + 1) base frs (CL0 ++ [c; cn m])%list HL G O /\
+    cv m' = upd (upd (cv m) c (MIterV (cur + 1) hi)) (cn m) (MInt cur) /\ cn m' = S (cn m).
+Proof.
+  intros m fn ups pc base frs CL0 c HL G O cur hi H Hf Hb Hlt. start2 H S0 F.
+  pose proof (set_pc_MS2 _ _ _ _ _ _ _ _ _ _ (pc + 1) H) as H1. start2 H1 S1 F1.
+  assert (Hlen : 0 < List.length (CL0 ++ [c])) by (rewrite app_length; cbn; lia).
+  assert (Hp : mpeek (set_pc m (pc + 1)) 0 = MIterV cur hi) by (rewrite (mpeek2 _ _ _ 0 S1 Hlen), nth_last_snoc2, cv_set_pc; exact Hb).
+  exists (mpush (mpoke (set_pc m (pc + 1)) 0 (MIterV (cur + 1) hi)) (MInt cur)). split; [open_step2 S0 F Hf; cbn [isize]; rewrite Hp, Hlt; reflexivity|].
+  destruct (MS2_eff _ _ _ _ _ _ _ _ _ _ _ _ _ _ _ H1 (mpoke2 _ _ _ _ (MIterV (cur + 1) hi) S1)) as (H2 & V2 & N2). start2 H2 S2 F2.
+  destruct (MS2_eff _ _ _ _ _ _ _ _ _ _ _ _ _ _ _ H2 (mpush2 _ _ _ (MInt cur) S2)) as (H3 & V3 & N3).
+  rewrite N2, cn_set_pc in H3, V3, N3. rewrite V2, cv_set_pc in V3. rewrite <- app_assoc in H3. cbn [app] in H3. auto.
+Qed.
+
+Lemma step2_iternext_done : forall m fn ups pc base frs CL0 c HL G O cur hi,
+  MS2 m fn ups pc base frs (CL0 ++ [c])%list HL G O -> fetch (code_of funs fn) pc = Some IIterNext ->
+  cv m c = MIterV cur hi -> Z.ltb cur hi = false ->
+  exists m', mstep cf funs m = MRun m' /\
+    MS2 m' fn ups (pc + 1) base frs (CL0 ++ [c; cn m])%list HL G O /\
+    cv m' = upd (cv m) (cn m) MStop /\ cn m' = S (cn m).
+Proof.
+  intros m fn ups pc base frs CL0 c HL G O cur hi H Hf Hb Hlt. start2 H S0 F.
+  pose proof (set_pc_MS2 _ _ _ _ _ _ _ _ _ _ (pc + 1) H) as H1. start2 H1 S1 F1.
+  assert (Hlen : 0 < List.length (CL0 ++ [c])) by (rewrite app_length; cbn; lia).
+  assert (Hp : mpeek (set_pc m (pc + 1)) 0 = MIterV cur hi) by (rewrite (mpeek2 _ _ _ 0 S1 Hlen), nth_last_snoc2, cv_set_pc; exact Hb).
+  exists (mpush (set_pc m (pc + 1)) MStop). split; [open_step2 S0 F Hf; cbn [isize]; rewrite Hp, Hlt; reflexivity|].
+  destruct (MS2_eff _ _ _ _ _ _ _ _ _ _ _ _ _ _ _ H1 (mpush2 _ _ _ MStop S1)) as (H3 & V3 & N3).
+  rewrite cn_set_pc in H3, V3, N3. rewrite cv_set_pc in V3. rewrite <- app_assoc in H3. cbn [app] in H3. auto.
+Qed.
+
 End Instr2.
 
 Print Assumptions step2_call.
